@@ -842,13 +842,11 @@ def check(ctx):
     ctx.attempt(check_call, ctx)
     ctx.attempt(check_disco, ctx)
     ctx.attempt(check_structural, ctx)
-    from ..core import Ctx
-    from . import c04
-    sub = Ctx("C04", ctx.model, ctx.tier)
-    c04.check(sub)
-    bad = [o for o in sub.obs if not o.ok and o.rule in ("R04.1", "R04.2")]
-    ctx.ob("R19.4", "C04:dependency", not bad and not sub.broken, found=["%s %s" % (o.rule, o.construct) for o in bad][:4] or "R04.1 / R04.2 discharged",
-           required="monoidal.Functor.__call__ applies id(left) @ F(box) @ id(right) layer by layer (C04)", mod="discopy.monoidal", node=None, sig="dep-C04:" + ",".join(sorted({o.rule for o in bad})))
+    try:
+        ctx.depend("R19.4", "C04", "monoidal.Functor.__call__ applies id(left) @ F(box) @ id(right) layer by layer (C04)", rules={"R04.1", "R04.2"}, mod="discopy.monoidal")
+    except AnalysisError:
+        if not any(not o.ok for o in ctx.obs):
+            raise
     ctx.floor("R19.1", 17)
     ctx.floor("R19.2", 6)
     ctx.floor("R19.3", 6)
